@@ -14,6 +14,7 @@ import (
 	"go/ast"
 	"go/token"
 	"strconv"
+	"strings"
 
 	"mvdan.cc/garble/internal/symx"
 )
@@ -153,6 +154,7 @@ func (e *Env) Define(name string, v Val) *Var {
 type Evaluator struct {
 	Types    map[string]ast.Expr // named types declared in the evaluated code
 	Failures []string
+	Unsupported []string
 	Steps    int
 	MaxSteps int
 }
@@ -162,8 +164,25 @@ func New() *Evaluator { return &Evaluator{Types: map[string]ast.Expr{}, MaxSteps
 type abort struct{}
 
 func (ev *Evaluator) fail(format string, args ...any) {
-	ev.Failures = append(ev.Failures, fmt.Sprintf(format, args...))
+	msg := fmt.Sprintf(format, args...)
+	if strings.HasPrefix(msg, "unsupported") {
+		// a construct outside the evaluator's subset: inconclusive, not a failure
+		ev.Unsupported = append(ev.Unsupported, msg)
+	} else {
+		ev.Failures = append(ev.Failures, msg)
+	}
 	panic(abort{})
+}
+
+// Report hands the evaluator's findings to symx: failures of the generated
+// code are violations, unsupported constructs make the path inconclusive.
+func (ev *Evaluator) Report() {
+	for _, u := range ev.Unsupported {
+		symx.Unsupported("symxeval: " + u)
+	}
+	for _, f := range ev.Failures {
+		symx.Fail("generated code: " + f)
+	}
 }
 
 // Protect runs f, converting evaluator aborts and run-time panics of the
@@ -804,6 +823,28 @@ func (ev *Evaluator) assignable(v Val, t ast.Expr, what string) Val {
 }
 
 func (ev *Evaluator) call(env *Env, e *ast.CallExpr) Val {
+	// (*[N]byte)(x): slice to array pointer conversion (panics when len(x) < N)
+	if pe, ok := e.Fun.(*ast.ParenExpr); ok {
+		if se, ok := pe.X.(*ast.StarExpr); ok {
+			if at, ok := se.X.(*ast.ArrayType); ok && at.Len != nil && len(e.Args) == 1 {
+				if k, isInt := ev.typeKind(at.Elt); isInt && k == KUint8 {
+					b, ok := ev.Eval(env, e.Args[0]).(Bytes)
+					if !ok {
+						ev.fail("compile error: cannot convert %T to *[N]byte", ev.Eval(env, e.Args[0]))
+					}
+					n := int(symx.Concretize(int(ev.Eval(env, at.Len).(Int).V)))
+					if len(b.B) < n {
+						ev.fail("run-time panic: cannot convert slice with length %d to array or pointer to array with length %d", len(b.B), n)
+					}
+					a := Arr{K: KUint8, IsArray: true, E: make([]Int, n)}
+					for i := 0; i < n; i++ {
+						a.E[i] = Int{V: uint64(b.B[i]), K: KUint8}
+					}
+					return Ptr{&Var{V: a}}
+				}
+			}
+		}
+	}
 	// conversions and builtins
 	switch fn := e.Fun.(type) {
 	case *ast.ArrayType: // []byte("...") or []byte(x)
